@@ -6,13 +6,18 @@ package xmpp
 // that was completely received before the cut.
 
 import (
+	"context"
 	"encoding/xml"
 	"fmt"
 	"io"
+	"net/http"
+	"net/http/httptest"
 	"strings"
 	"sync"
 	"testing"
 	"time"
+
+	"nhooyr.io/websocket"
 
 	"gosrc.io/xmpp/stanza"
 )
@@ -156,5 +161,37 @@ func TestVerifReplay_C12(t *testing.T) {
 			}
 		}
 	}
+	// closing a transport twice (the keepalive closes a dead connection, Disconnect closes again; a stream error makes
+	// both the receive loop and the StreamManager's handler disconnect) must not panic - websocket transport
+	cases++
+	if m := c12wsCloseTwice(); m != "" {
+		report("%s", m)
+	}
 	fmt.Printf("REPLAY-CASES: %d\n", cases)
+}
+
+func c12wsCloseTwice() (msg string) {
+	srv := httptest.NewServer(http.HandlerFunc(func(w http.ResponseWriter, r *http.Request) {
+		c, err := websocket.Accept(w, r, &websocket.AcceptOptions{Subprotocols: []string{"xmpp"}})
+		if err != nil {
+			return
+		}
+		ctx := context.Background()
+		c.Read(ctx)
+		c.Write(ctx, websocket.MessageText, []byte(`<open xmlns="urn:ietf:params:xml:ns:xmpp-framing" id="s1" version="1.0"/>`))
+		time.Sleep(time.Second)
+	}))
+	defer srv.Close()
+	var tr Transport = &WebsocketTransport{Config: TransportConfiguration{Address: "ws" + strings.TrimPrefix(srv.URL, "http"), Domain: "localhost", ConnectTimeout: 5}}
+	if _, err := tr.Connect(); err != nil {
+		return "websocket connect: " + err.Error()
+	}
+	defer func() {
+		if r := recover(); r != nil {
+			msg = fmt.Sprintf("closing the websocket transport a second time panics: %v", r)
+		}
+	}()
+	tr.Close()
+	tr.Close()
+	return ""
 }
